@@ -71,6 +71,16 @@ def _unicode_search(root, repo, args, timeout=900):
         p2 = subprocess.run(["cargo", "run", "--offline", "--release", "-q", "--no-default-features", "--manifest-path", os.path.join(d, "Cargo.toml"), "--"] + args,
                             env=env, capture_output=True, text=True, timeout=timeout)
         p2.stderr = "NOTE: the derive-generated parser for the advertised names did not compile on this tree:\n" + p.stderr[-1500:] + "\n" + p2.stderr
+        if p2.returncode == 0 and "WITNESS" not in p2.stdout and ("NAMES-OK" in p2.stdout or "NO-WITNESS" in p2.stdout):
+            # everything else builds and agrees, only the generated parser with one rule per advertised name does not compile:
+            # the generator cannot resolve some advertised name - that is the witness
+            import re as _re
+            missing = sorted(set(_re.findall(r"cannot find (?:function|value) `(?:r#)?([A-Z][A-Z0-9_]*)`", p.stderr)))
+            what = "the derive-generated parser with one rule per advertised property name does not compile (the same crate without it builds and agrees)"
+            if missing:
+                what += ": no generated function for " + ", ".join(missing[:12])
+            p2.stdout = 'WITNESS {"code_point":"names","what":"%s"}\n' % what.replace('"', "'") + p2.stdout.replace("NAMES-OK", "names-ok-without-the-generated-parser")
+            p2.returncode = 1
         return p2
     return p
 
